@@ -23,7 +23,7 @@ pub fn def() -> CheckDef {
         info: CheckInfo {
             id: "C10",
             level: "fault_enumeration",
-            rule: "one seeded run = one fault-free history; for its final store EVERY stored file other than the archive header x {delete, truncate to 0, truncate to half, overwrite with seeded garbage} plus two seeded bit flips per file. One evaluation = one damaged world on which versions/list/restore of every band, full and quick validation, a new backup and a restore of it are run. Oracles: nothing panics or exhausts the operation budget; in every band that still opens (and whose stitch donors still open) each file whose hunk and blocks are byte-identical restores exactly as before, and each file whose hunk or block is missing or undecodable is restored exactly or is covered by a reported error; after delete/truncate-to-0 damage the new backup completes and restores the source exactly. Non-trivial: the damaged file is a head, tail, hunk or block that some version uses; distinct = distinct (store hash, path, kind, arg).",
+            rule: "one seeded run = one fault-free history; for its final store EVERY stored file other than the archive header x {delete, truncate to 0, truncate to half, overwrite with seeded garbage} plus two (thorough: eight) seeded bit flips per file, plus for index hunks three (thorough: eight) 'structured garbage' variants: the hunk still decompresses and parses, with one field of one entry set to an extreme value (mtime_nanos >= 1e9, mtime = i64 extremes, start/len near u64::MAX, unknown kind, oversized mode). One evaluation = one damaged world on which versions/list/restore of every band, full and quick validation, a new backup and a restore of it are run. Oracles: nothing panics or exhausts the operation budget; in every band that still opens (and whose stitch donors still open) each file whose hunk and blocks are byte-identical restores exactly as before, and each file whose hunk or block is missing or undecodable is restored exactly or is covered by a reported error; after delete/truncate-to-0 damage the new backup completes and restores the source exactly. Non-trivial: the damaged file is a head, tail, hunk or block that some version uses; distinct = distinct (store hash, path, kind, arg).",
             assumptions: &[
                 "a hunk that still decodes after damage (e.g. a flipped bit inside a JSON string) is unconstrained beyond no-panic/no-hang",
                 "allocation for a corrupt Snappy length header is bounded by the format (4 GiB field) and not counted as a hang",
@@ -137,6 +137,9 @@ fn execute_found(sc: &Scenario, acc: &mut Acc) -> Result<Vec<Found>, String> {
         acc.hit(&format!("damaged_{class}"));
         if kind == DamageKind::BitFlip && class != "block" && class != "hunk" {
             acc.hit("bitflip_in_json");
+        }
+        if kind == DamageKind::HunkField {
+            acc.hit("structured_garbage_in_hunk");
         }
         if class != "other" {
             acc.nontrivial.insert(rng::mix(&[pre_hash, rng::hash_str(&path), rng::hash_str(&format!("{kind:?}{arg}"))]));
